@@ -503,7 +503,18 @@ func init() {
 				if okVal {
 					m := v.Instr.(ssa.CallInstruction)
 					mv := unwrapIface(CallArgs(m.Common())[0])
-					if a, ok := mv.(*ssa.Alloc); ok && strings.Contains(entryPtr, "@"+fmt.Sprint(fa.ord[firstUnmarshalInto(fn, a)])) {
+					// the variable that is marshalled is the one the bucket was decoded into, or a whole-value copy of it
+					// (a typed getter that returns the decoded bucket): the entries are pointers, shared by the copies
+					a, isAlloc := mv.(*ssa.Alloc)
+					found := false
+					for depth := 0; isAlloc && a != nil && depth < 4 && !found; depth++ {
+						if um := firstUnmarshalInto(fn, a); um != nil && strings.Contains(entryPtr, "@"+fmt.Sprint(fa.ord[um])) {
+							found = true
+							break
+						}
+						a = wholeCopySource(a)
+					}
+					if found {
 						bucket = fa.Term(a)
 					} else {
 						okVal = false
@@ -630,4 +641,29 @@ func counterIncrements(fa *FuncAnalysis, t *Term) []*ssa.BinOp {
 		}
 	}
 	return out
+}
+
+// wholeCopySource: when every whole-value store into a is `a = *b` for one other local b, that b.
+func wholeCopySource(a *ssa.Alloc) *ssa.Alloc {
+	var src *ssa.Alloc
+	refs := a.Referrers()
+	if refs == nil {
+		return nil
+	}
+	for _, ref := range *refs {
+		st, ok := ref.(*ssa.Store)
+		if !ok || st.Addr != ssa.Value(a) {
+			continue
+		}
+		u, ok := st.Val.(*ssa.UnOp)
+		if !ok || u.Op != token.MUL {
+			return nil
+		}
+		b, ok := u.X.(*ssa.Alloc)
+		if !ok || (src != nil && src != b) {
+			return nil
+		}
+		src = b
+	}
+	return src
 }
